@@ -160,6 +160,25 @@ impl<'m> Interp<'m> {
         })
     }
 
+    /// a value of type `ty` whose scalars all are the conversion of `x`
+    fn fill(&self, ty: ir::TypeId, x: &V) -> R<V> {
+        if let Some((k, dim)) = self.numeric(ty) {
+            let r = conv(x, k, dim);
+            return Ok(if dim == 1 && self.is_vector_type(ty) { V::Vec(vec![r]) } else { r });
+        }
+        Ok(match self.layer(ty) {
+            ir::TypeLayer::Struct(id) => {
+                let def = &self.m.struct_registry[id.0 as usize];
+                V::Struct(def.members.iter().map(|mm| self.fill(mm.type_id, x)).collect::<R<Vec<_>>>()?)
+            }
+            ir::TypeLayer::Array(inner, Some(n)) => {
+                let z = self.fill(inner, x)?;
+                V::Array(vec![z; n as usize])
+            }
+            other => return unsupported(format!("scalar converted to {:?}", other)),
+        })
+    }
+
     /// (kind, dim) of a numeric / enum type
     fn numeric(&self, ty: ir::TypeId) -> Option<(K, usize)> {
         match self.layer(ty) {
@@ -186,8 +205,8 @@ impl<'m> Interp<'m> {
                 Ok(if dim == 1 && self.is_vector_type(ty) { V::Vec(vec![r]) } else { r })
             }
             None => match (self.layer(ty), v) {
-                // (S)0 : zero initialisation of a struct
-                (ir::TypeLayer::Struct(_), x) if x.is_scalar() => self.zero(ty),
+                // (S)x : every scalar inside the struct receives the converted scalar
+                (ir::TypeLayer::Struct(_), x) if x.is_scalar() => self.fill(ty, x),
                 (ir::TypeLayer::Struct(_), V::Struct(_)) | (ir::TypeLayer::Array(..), V::Array(_)) => Ok(v.clone()),
                 (l, x) => unsupported(format!("cast of {} to {:?}", show(x), l)),
             },
